@@ -614,6 +614,10 @@ func filesetvbuf(t *rt.Thread, c *rt.GoCont) (rt.Cont, error) {
 			return nil, err
 		}
 	}
+	if size > 0 && size <= maxBufferSize && string(mode) != "no" {
+		// The buffer is as big as the program says: account for it.
+		t.RequireBytes(int(size))
+	}
 	bufErr := f.SetWriteBuffer(mode, int(size))
 	if bufErr != nil {
 		return nil, bufErr
